@@ -263,3 +263,81 @@ Example C11_legacy_invalid_utf8_witness :
   query_finds (lq_kw go_to_lower false v) (fst (kw_tokenize go_to_lower (ICfg false false 72 32768) 0 v)) = true /\
   query_finds (lq_kw go_to_lower true v) (fst (kw_tokenize go_to_lower (ICfg true false 72 32768) 0 v)) = false.
 Proof. exact legacy_invalid_witness. Qed.
+
+(* ================================================================= phase 3: the other filter forms *)
+
+(* in(...) form, every field type, every case rule, any other members around the value: the member made
+   from v is exactly the plain form's query for v, and the in-query finds whatever the plain query finds. *)
+Theorem C11_in_form_uniform :
+  forall t sens ms k v members,
+    nth_error ms k = Some v -> query_in go_is_letter go_is_number go_to_lower t sens ms = Some members ->
+    exists lits, query_lits go_is_letter go_is_number go_to_lower t sens v = Some lits /\
+                 nth_error members k = Some lits /\ length members = length ms /\
+                 (forall toks, query_finds lits toks = true -> in_finds members toks = true).
+Proof. exact go_in_form_uniform. Qed.
+Print Assumptions C11_in_form_uniform.
+
+Theorem C11_keyword_in_findable :
+  forall c fmax v ms k members,
+    (length v <= limit_of (max_tok c) fmax)%nat ->
+    has_rune WildcardRune v = false -> (cs c = false \/ valid_utf8 v = true) ->
+    nth_error ms k = Some v ->
+    query_in go_is_letter go_is_number go_to_lower TyKeyword (cs c) ms = Some members ->
+    nth_error members k = Some [qkw go_to_lower (cs c) v] /\
+    in_finds members (fst (kw_tokenize go_to_lower c fmax v)) = true.
+Proof. exact go_keyword_in_findable. Qed.
+Print Assumptions C11_keyword_in_findable.
+
+Theorem C11_text_words_in_findable :
+  forall c fmax v w ms k members,
+    v <> [] -> skipped TyText c fmax v = false ->
+    In w (words_of go_is_letter go_is_number (segs (indexed_part TyText c fmax v)) []) -> sizeok c w = true ->
+    nth_error ms k = Some w ->
+    query_in go_is_letter go_is_number go_to_lower TyText (cs c) ms = Some members ->
+    nth_error members k = Some [[TText (go_word_token c w)]] /\
+    in_finds members (fst (text_tokenize go_is_letter go_is_number go_to_lower c fmax v)) = true.
+Proof. exact go_text_in_findable. Qed.
+Print Assumptions C11_text_words_in_findable.
+
+Theorem C11_path_prefix_in_findable :
+  forall c fmax v q ms k members,
+    skipped TyPath c fmax v = false ->
+    In q (path_prefixes [] (indexed_part TyPath c fmax v) ++ [indexed_part TyPath c fmax v]) ->
+    has_rune WildcardRune q = false -> (cs c = false \/ valid_utf8 q = true) ->
+    nth_error ms k = Some q ->
+    query_in go_is_letter go_is_number go_to_lower TyPath (cs c) ms = Some members ->
+    nth_error members k = Some [[TText (go_ptok c q)]] /\
+    in_finds members (fst (path_tokenize go_to_lower c fmax v)) = true.
+Proof. exact go_path_in_findable. Qed.
+Print Assumptions C11_path_prefix_in_findable.
+
+(* `_exists_` in EVERY form (plain, range bounds, in members): the case rule is the forced one whatever the
+   configured case sensitivity, so the term is the title byte for byte and the document is found. *)
+Theorem C11_exists_findable_all_forms :
+  forall sens title,
+    has_rune WildcardRune title = false -> valid_utf8 title = true ->
+    let e := eff_sens true sens in
+    qkw go_to_lower e title = [TText title] /\
+    range_term go_to_lower e title = Some (TText title) /\
+    (forall ms k members toks, nth_error ms k = Some title ->
+       query_in go_is_letter go_is_number go_to_lower TyKeyword e ms = Some members -> In title toks ->
+       nth_error members k = Some [[TText title]] /\ in_finds members toks = true).
+Proof. exact go_exists_forms. Qed.
+Print Assumptions C11_exists_findable_all_forms.
+
+(* range form with both bounds made from the value *)
+Theorem C11_range_form_findable :
+  forall sens v t toks,
+    qkw go_to_lower sens v = [TText t] ->
+    range_term go_to_lower sens v = Some (TText t) /\
+    (In t toks -> range_finds (TText t) (TText t) toks = true).
+Proof. exact go_range_form_uniform. Qed.
+Print Assumptions C11_range_form_findable.
+
+(* why the forced rule matters (the regression the run now catches): `_exists_:in(traceID)` *)
+Example C11_exists_in_without_rule_refuted :
+  let title := [116; 114; 97; 99; 101; 73; 68] in
+  query_in go_is_letter go_is_number go_to_lower TyKeyword (eff_sens true false) [title] = Some [[[TText title]]] /\
+  query_in go_is_letter go_is_number go_to_lower TyKeyword false [title] = Some [[[TText [116; 114; 97; 99; 101; 105; 100]]]] /\
+  in_finds [[[TText [116; 114; 97; 99; 101; 105; 100]]]] [title] = false.
+Proof. exact exists_in_without_rule_refuted. Qed.
